@@ -304,7 +304,12 @@ func (g *TG) Struct(depth int) reflect.Type {
 			t = g.Type(depth, PosField)
 		}
 		opt := g.option(t)
-		tg := fmt.Sprintf(`plenc:"%d%s"`, idx, opt)
+		// the index is a decimal number however it is spelled: zero-padded, with a plus sign
+		spell := "%d"
+		if g.R.IntN(16) == 0 {
+			spell = []string{"0%d", "00%d", "+%d", "%02d", "%03d"}[g.R.IntN(5)]
+		}
+		tg := fmt.Sprintf(`plenc:"`+spell+`%s"`, idx, opt)
 		if g.JSONTags && g.R.IntN(4) == 0 {
 			// descriptor names stay unique within a struct (duplicate keys have no meaning in JSON)
 			jn := jsonNames[g.R.IntN(len(jsonNames))]
